@@ -268,11 +268,25 @@ inline void *guard_malloc(size_t n) { void *p = malloc(n ? n : 1); if (p) guard_
 inline void guard_free(void *p) { if (!p) return; if (!guard_live().erase(p)) { guard_foreign_frees()++; return; } free(p); }
 
 // jwt_value_t constructors (the jwt_set_* macros of jwt.h are C-only: they assign 0 to an enum)
-inline jwt_value_t val_get(jwt_value_type_t t, const char *name) { jwt_value_t x; memset(&x, 0, sizeof x); x.type = t; x.name = name; return x; }
-inline jwt_value_t val_int(const char *name, long i, int replace = 0) { jwt_value_t x = val_get(JWT_VALUE_INT, name); x.int_val = i; x.replace = replace; return x; }
-inline jwt_value_t val_str(const char *name, const char *s, int replace = 0) { jwt_value_t x = val_get(JWT_VALUE_STR, name); x.str_val = s; x.replace = replace; return x; }
-inline jwt_value_t val_bool(const char *name, int b, int replace = 0) { jwt_value_t x = val_get(JWT_VALUE_BOOL, name); x.bool_val = b; x.replace = replace; return x; }
-inline jwt_value_t val_json(const char *name, const char *js, int replace = 0) { jwt_value_t x = val_get(JWT_VALUE_JSON, name); x.json_val = (char *)js; x.replace = replace; return x; }
+// jwt_value_t helpers that do exactly what the jwt_set_{GET,SET}_* macros of jwt.h do (those are C-only statement expressions),
+// on a struct that is DIRTY beforehand: applications reuse one jwt_value_t for many calls, and the macros assign only
+// type, name, the value member of that type, error (+ replace for setters, pretty for JSON getters) - nothing else may matter.
+inline jwt_value_t val_dirty() { jwt_value_t x; memset(&x, 0xA5, sizeof x); return x; }
+inline jwt_value_t val_get(jwt_value_type_t t, const char *name) {
+  jwt_value_t x = val_dirty(); x.type = t; x.name = name; x.error = JWT_VALUE_ERR_NONE;
+  switch (t) { case JWT_VALUE_INT: x.int_val = 0; break; case JWT_VALUE_STR: x.str_val = NULL; break; case JWT_VALUE_BOOL: x.bool_val = 0; break;
+               case JWT_VALUE_JSON: x.pretty = 0; x.json_val = NULL; break; default: x.int_val = 0; x.pretty = 0; break; }
+  return x; }
+inline jwt_value_t val_int(const char *name, long i, int replace = 0) { jwt_value_t x = val_dirty(); x.type = JWT_VALUE_INT; x.replace = replace; x.name = name; x.int_val = i; x.error = JWT_VALUE_ERR_NONE; return x; }
+inline jwt_value_t val_str(const char *name, const char *s, int replace = 0) { jwt_value_t x = val_dirty(); x.type = JWT_VALUE_STR; x.replace = replace; x.name = name; x.str_val = s; x.error = JWT_VALUE_ERR_NONE; return x; }
+inline jwt_value_t val_bool(const char *name, int b, int replace = 0) { jwt_value_t x = val_dirty(); x.type = JWT_VALUE_BOOL; x.replace = replace; x.name = name; x.bool_val = b; x.error = JWT_VALUE_ERR_NONE; return x; }
+inline jwt_value_t val_json(const char *name, const char *js, int replace = 0) { jwt_value_t x = val_dirty(); x.type = JWT_VALUE_JSON; x.replace = replace; x.name = name; x.json_val = (char *)js; x.error = JWT_VALUE_ERR_NONE; return x; }
+
+// shrinking budget: rapidcheck re-runs the property for every shrink candidate and has no limit of its own; with large cases
+// (JSON trees, long histories) that can take many minutes. After the first failure at most `budget` further cases are judged;
+// later candidates count as passing, which ends the shrink at the smallest failing case found so far.
+inline int &fail_seen() { static int n = 0; return n; }
+inline bool shrink_exhausted(int budget = 3000) { static int after = 0; if (!fail_seen()) return false; return ++after > budget; }
 
 // provider switch (C12 anchors): 0=openssl 1=gnutls
 inline const char *prov_name(int p) { return p ? "gnutls" : "openssl"; }
